@@ -1,11 +1,16 @@
 (* Dispatch.v — the single entry point the extracted driver calls:
    component number and flat input -> flat output. *)
-From RaftModel Require Import Base LogCache.
+From RaftModel Require Import Base LogCache Config Commitment Compaction Node NodeCodec.
 Open Scope N_scope.
 
 Definition run_case (comp : N) (inp : list N) : list N :=
   match comp with
   | 19 => run_logcache inp
   | 1900 => run_barestore inp
+  | 5 => run_commitment inp
+  | 501 => run_follower_commit inp
+  | 7 => run_nextconfig inp
+  | 11 => run_compact inp
+  | 6 => run_nodeseq inp
   | _ => []
   end.
